@@ -17,7 +17,7 @@ LEVEL_NOTE = ("Trusted: Lean kernel (+ standard axioms); hand model of _reduce (
               "known finding F05c, judged with a relative-error bound); wrappers (axis=None, keepdims, mean, argmax/argmin) are "
               "correspondence-only.")
 TECHNIQUE = "Lean 4 proof of reduceat+patch-up model = map red rows; numpy-evaluated correspondence"
-DESIGN_REF = "6.5"
+DESIGN_REF = "7"
 LEAN_MODULES = ["NpsVerif.Props.C05"]
 KERNELS = ()
 RULE = ("cases = ragged shape (exhaustive <=4 rows x <=2 cells quick, <=4x3 thorough, + random with many empty rows) x reduction "
